@@ -71,3 +71,42 @@ pub fn normalize(thorough: bool) -> Report {
     r.samples.push("deps [libcnb:known/a, ../y, docker://img] at /ws/buildpacks/meta/package.toml -> [/out/known_a, /ws/buildpacks/y, docker://img]".into());
     r
 }
+
+// C14 bounded stand-in, packaging level: the PUBLIC package_composite_buildpack on a real directory; the written package.toml is read with a
+// generic TOML reader (not libcnb-data's types).
+pub fn package(_thorough: bool) -> Report {
+    use std::fs;
+    let mut r = Report::new(
+        "package_composite_buildpack(<dir>, <destination>, id->path map) on real directories for 3 source locations (different depths) x complete / incomplete map: the written package.toml (generic TOML reader) lists, in order, the mapped location for each libcnb: reference, the absolute dot-free path each relative path denotes RELATIVE TO THE SOURCE package.toml, every other URI verbatim; buildpack uri and platform as in the source; buildpack.toml copied byte-identically; an id without a location is an error; non-trivial = all",
+        "3 locations x 2 maps, 9 dependencies of 8 kinds",
+    );
+    let deps = ["libcnb:demo/one", "sibling", "./a/./b//c/", "../outside/x/../y", "/abs/p", "docker://docker.io/heroku/example:1.2.3", "https://example.com/meta.tgz", "urn:cnb:registry:heroku/x", "libcnb:demo/two"];
+    for (li, rel_dir) in ["src/meta", "m", "a/b/c/d/meta"].iter().enumerate() { for complete in [true, false] {
+        r.evaluations += 1; r.nontrivial += 1;
+        let t = tempfile::tempdir().unwrap(); let root = t.path().canonicalize().unwrap();
+        let src = root.join(rel_dir); let dst = root.join("out/deep/meta_pkg"); fs::create_dir_all(&src).unwrap(); fs::create_dir_all(&dst).unwrap();
+        let bp_toml = "api = \"0.10\"\n# a comment that must survive the copy\n[buildpack]\nid = \"demo/meta\"\nversion = \"0.0.1\"\n[[order]]\n[[order.group]]\nid = \"demo/one\"\nversion = \"1.0.0\"\n";
+        fs::write(src.join("buildpack.toml"), bp_toml).unwrap();
+        fs::write(src.join("package.toml"), format!("[buildpack]\nuri = \"https://example.com/meta-buildpack.tgz\"\n[platform]\nos = \"windows\"\n{}", deps.iter().map(|u| format!("[[dependencies]]\nuri = \"{u}\"\n")).collect::<String>())).unwrap();
+        let mut map: BTreeMap<BuildpackId, PathBuf> = BTreeMap::new();
+        map.insert("demo/one".parse().unwrap(), PathBuf::from("/packaged/demo_one"));
+        if complete { map.insert("demo/two".parse().unwrap(), PathBuf::from("/packaged/two")); }
+        let input = format!("source {rel_dir}/package.toml (location {li}), map {}", if complete { "complete" } else { "without demo/two" });
+        let res = libcnb_package::package::package_composite_buildpack(&src, &dst, &map);
+        if !complete { if res.is_ok() { r.violation("package_missing_id", "an id without a known location is an error", input, "Err".into(), "Ok".into()); } continue; }
+        if let Err(e) = res { r.violation("package", "packaging a well-formed composite buildpack failed", input, "Ok".into(), e.to_string()); continue; }
+        let written: toml::Value = match fs::read_to_string(dst.join("package.toml")).ok().and_then(|s| toml::from_str(&s).ok()) { Some(v) => v, None => { r.violation("package", "the written package.toml is not valid TOML", input, "TOML".into(), "unreadable".into()); continue; } };
+        let got: Vec<String> = written.get("dependencies").and_then(|d| d.as_array()).map(|a| a.iter().map(|x| x.get("uri").and_then(|u| u.as_str()).unwrap_or("<no uri>").to_string()).collect()).unwrap_or_default();
+        let want: Vec<String> = deps.iter().map(|u| match *u {
+            "libcnb:demo/one" => "/packaged/demo_one".to_string(), "libcnb:demo/two" => "/packaged/two".to_string(),
+            u if !u.contains(':') && !u.starts_with('/') => lex(&src, u).to_string_lossy().to_string(),
+            u => u.to_string() }).collect();
+        if got != want { r.violation("package_dependencies", "dependencies of the written package.toml (relative paths resolved against the SOURCE package.toml's directory)", input.clone(), format!("{want:?}"), format!("{got:?}")); }
+        let bu = written.get("buildpack").and_then(|b| b.get("uri")).and_then(|u| u.as_str()).unwrap_or("<none>").to_string();
+        let os = written.get("platform").and_then(|b| b.get("os")).and_then(|u| u.as_str()).unwrap_or("<none>").to_string();
+        if bu != "https://example.com/meta-buildpack.tgz" || os != "windows" { r.violation("package_buildpack_and_platform", "buildpack uri and platform are preserved", input.clone(), "https://example.com/meta-buildpack.tgz / windows".into(), format!("{bu} / {os}")); }
+        if fs::read_to_string(dst.join("buildpack.toml")).ok().as_deref() != Some(bp_toml) { r.violation("package_buildpack_toml", "buildpack.toml is copied byte-identically", input, "identical".into(), "different".into()); }
+    } }
+    r.samples.push("src/meta/package.toml: ../outside/x/../y -> <root>/src/outside/y".into());
+    r
+}
